@@ -19,10 +19,10 @@ Proof.
 Qed.
 
 Lemma prim_mono i p s q :
-  Bnd i s -> Coherent s -> pvalid i p s -> psafe p s -> okq q ->
+  Bnd i s -> pvalid i p s -> psafe p s -> okq q ->
   idx q s <= idx q (papply i p s).
 Proof.
-  intros HBnd HC Hv Hs Hq. pose proof (bnd_index _ _ HBnd) as HB. destruct Hq as [q Hq|q Hq|n|name wc q Hq].
+  intros HBnd Hv Hs Hq. pose proof (bnd_index _ _ HBnd) as HB. destruct Hq as [q Hq|q Hq|n|name wc q Hq].
   - apply tab_mono; assumption.
   - apply kv_mono; assumption.
   - apply node_services_mono; assumption.
@@ -30,35 +30,33 @@ Proof.
 Qed.
 
 Lemma prim_changed i p s q :
-  Bnd i s -> Coherent s -> pvalid i p s -> psafe p s -> okq q ->
+  Bnd i s -> pvalid i p s -> psafe p s -> okq q ->
   res q s <> res q (papply i p s) -> i <= idx q (papply i p s).
 Proof.
-  intros HBnd HC Hv Hs Hq Hc. pose proof (bnd_index _ _ HBnd) as HB. destruct Hq as [q Hq|q Hq|n|name wc q Hq].
+  intros HBnd Hv Hs Hq Hc. pose proof (bnd_index _ _ HBnd) as HB. destruct Hq as [q Hq|q Hq|n|name wc q Hq].
   - rewrite (tab_changed i p s q HB Hq Hc). lia.
   - apply kv_changed; assumption.
   - rewrite (node_services_changed i p s n HB Hv Hc). lia.
-  - rewrite (svc_changed i p s name wc q HB HC Hv Hs Hq Hc). lia.
+  - rewrite (svc_changed i p s name wc q HB Hv Hs Hq Hc). lia.
 Qed.
 
 (* ---------- a whole trace ---------- *)
 Lemma run_mono i ps s q :
-  Bnd i s -> Coherent s -> Valid i ps s -> Safe i ps s -> okq q ->
-  idx q s <= idx q (prun i ps s).
+  Bnd i s -> Valid i ps s -> Safe i ps s -> okq q -> idx q s <= idx q (prun i ps s).
 Proof.
-  revert s. induction ps as [|p ps IH]; intros s HBnd HC HV HS Hq; [cbn; lia|].
+  revert s. induction ps as [|p ps IH]; intros s HBnd HV HS Hq; [cbn; lia|].
   destruct HV as [Hv HV], HS as [Hs HS]. rewrite prun_cons.
   etransitivity; [apply (prim_mono i p s q); assumption|].
-  apply IH; try assumption; [apply Bnd_papply; assumption|eapply Coherent_papply; eassumption].
+  apply IH; try assumption. apply Bnd_papply; assumption.
 Qed.
 
 Lemma run_changed i ps s q :
-  Bnd i s -> Coherent s -> Valid i ps s -> Safe i ps s -> okq q ->
+  Bnd i s -> Valid i ps s -> Safe i ps s -> okq q ->
   res q s <> res q (prun i ps s) -> i <= idx q (prun i ps s).
 Proof.
-  revert s. induction ps as [|p ps IH]; intros s HBnd HC HV HS Hq Hc; [contradiction Hc; reflexivity|].
+  revert s. induction ps as [|p ps IH]; intros s HBnd HV HS Hq Hc; [contradiction Hc; reflexivity|].
   destruct HV as [Hv HV], HS as [Hs HS]. rewrite prun_cons in *.
   assert (HBnd1 : Bnd i (papply i p s)) by (apply Bnd_papply; assumption).
-  assert (HC1 : Coherent (papply i p s)) by (eapply Coherent_papply; eassumption).
   destruct (decide (res q s = res q (papply i p s))) as [Heq|Hne].
   - apply IH; try assumption. rewrite <- Heq. exact Hc.
   - etransitivity; [apply (prim_changed i p s q); assumption|]. apply run_mono; assumption.
@@ -80,17 +78,16 @@ Proof.
 Qed.
 
 Lemma run_fresh i ps s name :
-  Bnd i s -> Coherent s -> Valid i ps s -> Safe i ps s ->
+  Bnd i s -> Valid i ps s -> Safe i ps s ->
   J name s <> J name (prun i ps s) -> FreshRow i (k_svc name) (prun i ps s).
 Proof.
-  revert s. induction ps as [|p ps IH]; intros s HBnd HC HV HS Hc; [contradiction Hc; reflexivity|].
+  revert s. induction ps as [|p ps IH]; intros s HBnd HV HS Hc; [contradiction Hc; reflexivity|].
   destruct HV as [Hv HV], HS as [Hs HS]. rewrite prun_cons in *.
   assert (HBnd1 : Bnd i (papply i p s)) by (apply Bnd_papply; assumption).
-  assert (HC1 : Coherent (papply i p s)) by (eapply Coherent_papply; eassumption).
   destruct (decide (J name s = J name (papply i p s))) as [Heq|Hne].
   - apply IH; try assumption. rewrite <- Heq. exact Hc.
   - apply FreshRow_prun; try assumption.
-    destruct (J_changed i p s name (bnd_index _ _ HBnd) HC Hv Hs Hne) as [[Hi _]|(_ & _ & Hn)]; [left|right]; assumption.
+    destruct (J_changed i p s name (bnd_index _ _ HBnd) Hv Hs Hne) as [[Hi _]|(_ & _ & Hn)]; [left|right]; assumption.
 Qed.
 
 Lemma reap_dec c : {u | c = Reap u} + {forall u, c <> Reap u}.
@@ -111,7 +108,7 @@ Proof.
   intros HBnd. unfold apply. destruct (trace i c s) as [ps|] eqn:Et; [|exact HBnd].
   destruct (reap_dec c) as [[u ->]|Hr].
   - cbn in Et. injection Et as <-. cbn [prun foldl]. apply Bnd_papply'; [exact HBnd|]. intros k e H. discriminate.
-  - apply Bnd_prun; [exact HBnd|]. eapply trace_ok; [exact Et|exact Hr].
+  - apply Bnd_prun; [exact HBnd|]. exact (proj1 (trace_ok i c s ps Et Hr)).
 Qed.
 
 Lemma Reach_Bnd hi s : Reach hi s -> Bnd hi s.
@@ -120,14 +117,14 @@ Proof.
   apply Bnd_apply. eapply Bnd_mono; [|exact IH]. lia.
 Qed.
 
-(* safe writes keep the catalog coherent *)
-Lemma Coherent_apply i c s : Coherent s -> safe_cmd c s -> Coherent (apply i c s).
+(* writes that register no service id under another name keep the catalog coherent *)
+Lemma Coherent_apply i c s : Coherent s -> rename_free c s -> Coherent (apply i c s).
 Proof.
   intros HC Hs. unfold apply. destruct (trace i c s) as [ps|] eqn:Et; [|exact HC].
   destruct (reap_dec c) as [[u ->]|Hr].
   - cbn in Et. injection Et as <-. cbn [prun foldl].
     intros n cid x sv. rewrite checks_papply, services_papply. apply HC.
-  - destruct (trace_ok i c s ps Et Hr) as [HV HS]. apply Coherent_prun; [exact HC|exact HV|apply HS, Hs].
+  - destruct (trace_ok i c s ps Et Hr) as (HV & _ & HK). apply Coherent_prun; [exact HC|exact HV|apply HK, Hs].
 Qed.
 
 (* ---------- the queries of the proved families ---------- *)
@@ -148,8 +145,8 @@ Proof.
   unfold apply in *. destruct (trace i c s) as [ps|] eqn:Et; [|contradiction Hc; reflexivity].
   destruct (reap_dec c) as [[u ->]|Hr].
   { cbn in Et. injection Et as <-. cbn [prun foldl] in Hc. rewrite res_reap in Hc. contradiction Hc; reflexivity. }
-  destruct (trace_ok i c s ps Et Hr) as [HV HS].
-  pose proof (run_changed i ps s q HBnd HC HV (HS Hs) Hq) as H.
+  destruct (trace_ok i c s ps Et Hr) as (HV & HS0 & _). pose proof (HS0 HC) as HS.
+  pose proof (run_changed i ps s q HBnd HV (HS Hs) Hq) as H.
   assert (i <= idx q (prun i ps s)) by (apply H; intros Heq; apply Hc; rewrite Heq; reflexivity). lia.
 Qed.
 
@@ -173,11 +170,11 @@ Proof.
   unfold apply in *. destruct (trace i c s) as [ps|] eqn:Et; [|contradiction Hc; reflexivity].
   destruct (reap_dec c) as [[u ->]|Hr].
   { cbn in Et. injection Et as <-. cbn [prun foldl] in Hc. rewrite res_reap in Hc. contradiction Hc; reflexivity. }
-  destruct (trace_ok i c s ps Et Hr) as [HV HS].
+  destruct (trace_ok i c s ps Et Hr) as (HV & HS0 & _). pose proof (HS0 HC) as HS.
   assert (HJ : J name s <> J name (prun i ps s)).
   { intros HJ. apply Hc. symmetry. eapply (svcq_res name true); [constructor|exact HJ]. }
   pose proof (bnd_index _ _ HBhi _ _ Hv) as Hvle.
-  destruct (run_fresh i ps s name HBnd HC HV (HS Hs) HJ) as [Hf|Hf]; rewrite Hf; [|discriminate].
+  destruct (run_fresh i ps s name HBnd HV (HS Hs) HJ) as [Hf|Hf]; rewrite Hf; [|discriminate].
   intros Heq. injection Heq as ->. lia.
 Qed.
 
@@ -189,7 +186,7 @@ Proof.
   pose proof (Reach_Bnd _ _ HR) as HBhi.
   assert (HBnd : Bnd i s) by (eapply Bnd_mono; [|exact HBhi]; lia).
   unfold apply. destruct (trace i c s) as [ps|] eqn:Et; [|lia].
-  destruct (trace_ok i c s ps Et Hr) as [HV HS].
+  destruct (trace_ok i c s ps Et Hr) as (HV & HS0 & _). pose proof (HS0 HC) as HS.
   apply run_mono; try assumption. apply HS, Hs.
 Qed.
 
@@ -281,8 +278,8 @@ Proof.
     unfold apply in *. destruct (trace i c s) as [ps|] eqn:Et; [|contradiction Hc; reflexivity].
     destruct (reap_dec c) as [[u ->]|Hr].
     { cbn in Et. injection Et as <-. cbn [prun foldl] in Hc. rewrite res_reap in Hc. contradiction Hc; reflexivity. }
-    destruct (trace_ok i c s ps Et Hr) as [HV HS].
-    apply (run_changed i ps s q HBnd HC HV (HS Hs) Hq).
+    destruct (trace_ok i c s ps Et Hr) as (HV & HS0 & _). pose proof (HS0 HC) as HS.
+    apply (run_changed i ps s q HBnd HV (HS Hs) Hq).
     intros Heq; apply Hc; rewrite Heq; reflexivity. }
   unfold reported. lia.
 Qed.
@@ -347,7 +344,7 @@ Proof.
   unfold apply in *. destruct (trace i c s) as [ps|] eqn:Et; [|contradiction Hc; reflexivity].
   destruct (reap_dec c) as [[u ->]|Hr].
   { cbn in Et. injection Et as <-. cbn [prun foldl] in Hc. rewrite res_reap in Hc. contradiction Hc; reflexivity. }
-  destruct (trace_ok i c s ps Et Hr) as [HV _].
+  destruct (trace_ok i c s ps Et Hr) as (HV & _).
   apply (run_changed_plain i ps s q HBnd HV Hq). intros Heq; apply Hc; rewrite Heq; reflexivity.
 Qed.
 
@@ -360,8 +357,8 @@ Proof.
   unfold apply in *. destruct (trace i c s) as [ps|] eqn:Et; [|contradiction Hc; reflexivity].
   destruct (reap_dec c) as [[u ->]|Hr].
   { cbn in Et. injection Et as <-. cbn [prun foldl] in Hc. rewrite res_reap in Hc. contradiction Hc; reflexivity. }
-  destruct (trace_ok i c s ps Et Hr) as [HV HS].
-  apply (run_changed i ps s q HBnd HC HV (HS Hs) Hq). intros Heq; apply Hc; rewrite Heq; reflexivity.
+  destruct (trace_ok i c s ps Et Hr) as (HV & HS0 & _). pose proof (HS0 HC) as HS.
+  apply (run_changed i ps s q HBnd HV (HS Hs) Hq). intros Heq; apply Hc; rewrite Heq; reflexivity.
 Qed.
 
 Theorem fires_plain hi s i c q :
@@ -377,7 +374,7 @@ Proof.
   intros HR Hlt Hq Hr. pose proof (Reach_Bnd _ _ HR) as HBhi.
   assert (HBnd : Bnd i s) by (eapply Bnd_mono; [|exact HBhi]; lia).
   unfold apply. destruct (trace i c s) as [ps|] eqn:Et; [|lia].
-  destruct (trace_ok i c s ps Et Hr) as [HV _]. apply run_mono_plain; assumption.
+  destruct (trace_ok i c s ps Et Hr) as (HV & _). apply run_mono_plain; assumption.
 Qed.
 
 (* ---------- the loop, tightly: which minimum the returned index was compared with ---------- *)
